@@ -198,14 +198,15 @@ PROPS["C07"] = dict(
                "decoder returns exactly the concatenated source and nothing else; size lines are minimal hex of the data length; a reader "
                "error leaves an incomplete stream. Tied to the code by running the real copy_chunked_async on scripted readers/writers.",
     level_note="Trusted: Lean kernel; hand-written model of copy_chunked_async (modelled, not verified); decoder spec is my reading of RFC 7230 "
-               "4.1 without extensions/trailers; suite c07. The general 'no proper prefix decodes as complete' statement is not proved, only "
-               "the error-truncation case.",
+               "4.1 without extensions/trailers; suite c07. C07_no_false_complete (Props/C07Prefix.lean) is the general statement: no proper "
+               "prefix of an encoding decodes as a complete message.",
 )
 
 PROPS["C01"] = dict(
     suites=["c01", "c03b", "c01l", "c01n"],
     shards={"c01n": 1, "c01l": 2},
-    lean_modules=["ServlinVerif.Props.C01", "ServlinVerif.Props.C01Bound"],
+    gen=[("headtab", "ServlinVerif/Gen/HeadTable.lean")],
+    lean_modules=["ServlinVerif.Props.C01", "ServlinVerif.Props.C01Bound", "ServlinVerif.Props.HeadTable"],
     audit="Audit/C01.lean",
     rule="read_http_request on scripted streams (FixedBuf<16|64|8192>): exhaustive strings over {G / SP : CR LF 0x80 a} up to length 6 (7 "
          "thorough); exhaustive 12 request-line variants x <=5 (6) tokens over {a : SP HT CR LF 0x80} + CRLFCRLF + tail; 6000 (60000) "
@@ -254,7 +255,8 @@ PROPS["C03"] = dict(
 
 PROPS["C02"] = dict(
     suites=["c02", "c01s"],
-    lean_modules=["ServlinVerif.Props.C02"],
+    gen=[("headtab", "ServlinVerif/Gen/HeadTable.lean")],
+    lean_modules=["ServlinVerif.Props.C02", "ServlinVerif.Props.HeadTable"],
     audit="Audit/C02.lean",
     rule="1500 (12000) grammar-derived heads (every tchar in methods/names, every VCHAR/SP/HT in values, 0-40 fields, OWS variants, class-A "
          "targets; every 5th with an unusual target: //a/b, dot-segments, quotes, fragments, backslash, non-ASCII, absolute-form, *) each "
@@ -412,9 +414,9 @@ PROPS["C05"] = dict(
 )
 
 PROPS["C04"] = dict(
-    suites=["c04", "c03b"],
-    shards={"c04": 4},
-    lean_modules=["ServlinVerif.Props.C04", "ServlinVerif.Props.C05", "ServlinVerif.Props.C04Pipeline", "ServlinVerif.Props.C04Steps"],
+    suites=["c04", "c03b", "c04p"],
+    shards={"c04": 4, "c04p": 3},
+    lean_modules=["ServlinVerif.Props.C04", "ServlinVerif.Props.C05", "ServlinVerif.Props.C04Pipeline", "ServlinVerif.Props.C04Steps", "ServlinVerif.Props.C04Pool"],
     audit="Audit/C04.lean",
     rule="HttpServerBuilder::spawn on loopback with a scripted handler (behaviour looked up by request path; every call logged): 700 (6000) "
          "sequences of 1..12 requests drawn from {no body, small body, body above the in-memory threshold, Expect: 100-continue, unknown-length "
@@ -423,7 +425,7 @@ PROPS["C04"] = dict(
          "fragments with pauses, ping-pong}; observed = handler call log + client transcript + files left in the cache dir. "
          "Non-trivial = at least one handler call.",
     nontrivial=lambda tag, args, obs: not obs.startswith("calls= "),
-    klass=lambda tag, args, obs: "c03b:ops=%d" % min(args[1].count(";") + 1, 24) if tag == "c05" else "c04:%s:calls=%d" % (args[2], min(len([x for x in obs.split(" wire=")[0][6:].split("|") if x]), 6)),
+    klass=lambda tag, args, obs: "c03b:ops=%d" % min(args[1].count(";") + 1, 24) if tag == "c05" else "c04p:pool=" + args[0] if tag == "c04p" else "c04:%s:calls=%d" % (args[2], min(len([x for x in obs.split(" wire=")[0][6:].split("|") if x]), 6)),
     explanation="handle_http_conn_once / handle_http_conn modelled on top of the connection model with the handler as an oracle; theorems: "
                 "C04_runs_per_request (at most two runs; two only after a fetch-body answer, the second with the body present), "
                 "C04_closed_after_error / C04_error_status_closes / C04_not_ready_stops (after any error, 4xx/5xx, drop or unread body no "
@@ -507,8 +509,9 @@ PROPS["C11"] = dict(
     trusted=["std::sync::mpsc::sync_channel linearizability (safina wraps it); thread interleavings finer than one channel operation"],
     assumptions=["events fit the 65528-byte read slice (larger ones: known finding sse-oversize-event)"],
     level_text="Proof: channel invariant for every sequence of sender/writer steps (unbounded length, any number of handles). Format: the full "
-               "statement is refuted by a kernel-checked witness and recorded as a known finding; the format-level positive statement is "
-               "only proved on concrete representative events (decide) and otherwise checked by the executable WHATWG parser on the real output.",
+               "statement is refuted by a kernel-checked witness and recorded as a known finding; the positive statement C11_format_partial "
+               "(Props/C11Format.lean) is general: for every sequence of events with clean data (no lone CR, no trailing line break, type without "
+               "line breaks) the WHATWG parser recovers exactly the events once each block is closed by the missing blank line; the executable parser also runs on the real output.",
     level_note="Trusted: Lean kernel; model of src/event.rs + the event path of copy_chunked_async (modelled, not verified), tied by suite c11 "
                "(exhaustive depth-4 interleavings at API-call granularity); std mpsc.",
 )
@@ -532,8 +535,10 @@ PROPS["C18"] = dict(
                 "the same three conditions on each captured event against the tags the program passed.",
     trusted=["atomicity of the mutex-protected section and thread-locals (Rust); std mpsc; sort_by_key stability (tied by the suite)"],
     assumptions=["events that went to the stdout default logger are not captured (only the call result is checked there)"],
-    level_text="Proof: sorting/partition theorem over all tag lists; delivery and wrapper statements by definition of the model. Partial (runtime): "
-               "cross-thread isolation is Rust's thread_local! and is observed by the concurrent scenarios, not proved.",
+    level_text="Proof: sorting/partition theorem over all tag lists; delivery and wrapper statements by definition of the model; "
+               "C18_exactly_once / C18_current_sink / C18_thread_isolation (Props/C18World.lean) over every interleaved history of any number of threads "
+               "on the world model (global logger state + per-thread tag lists). Partial (runtime): that Rust's thread_local! gives each thread its own "
+               "list is an assumption of that model, observed by the concurrent scenarios.",
     level_note="Trusted: Lean kernel; model of src/log/logger.rs and src/log/mod.rs (modelled, not verified) tied by suite c18.",
 )
 
@@ -638,7 +643,8 @@ for _pid, _d in ADD4.items():
 
 # Round-5 strengthening (appended like the texts above).
 ADD5 = {
-    "C01": dict(rule="(viii) every Cookie value of up to 5 (6) symbols over {a = ; \" SP}. Suite c01n: a server in a process that never started the safina timer thread; late, split and kept-alive requests must be served (oracle only)."),
+    "C02": dict(explanation="Props/HeadTable.lean: headBytes_match — Head::try_read executed on every byte value at 16 position classes of a head (Gen/HeadTable.lean, regenerated on every run) and kernel-checked against the model's hand-written matchers: outcome, method, fields, bytes left."),
+    "C01": dict(explanation="Props/HeadTable.lean: headBytes_match ties the model's byte classes, line splitting and trimming to Head::try_read on every byte value at 16 position classes (table regenerated on every run).", rule="(viii) every Cookie value of up to 5 (6) symbols over {a = ; \" SP}. Suite c01n: a server in a process that never started the safina timer thread; late, split and kept-alive requests must be served (oracle only)."),
     "C03": dict(rule="c03b also in rst mode: the client resets the connection instead of closing it; a body of undeclared length then ends in an error, not in its end.",
                 explanation="Conn.inputErr models a stream that ends in an error (reset) instead of EOF: reading a body of undeclared length then fails with Truncated (C09_reset_is_not_eof)."),
     "C04": dict(rule="Event-stream responses (behaviour E<n>: n messages produced 25 ms apart by another thread) inside request sequences, schedules single / frag / mid (the next request is sent while the stream is being produced); every schedule half-closes after its last byte. rst<N> also for uploads of undeclared length."),
